@@ -15,6 +15,7 @@ CONSTANTS
   HealRounds = 3
   Bound = 3
   HealLose = {TRUE, FALSE}
+  Reorder = TRUE
   RecvAnywhere = FALSE
   PropsOn <- P_C01
   Export = TRUE
